@@ -142,7 +142,7 @@ package types
 //@   ensures[base]  err == nil ==> fresh(op) && fresh(op.TransferAttributes)
 //@   ensures[C07,C01,C02,C11,C03,C18] ccIsIBC(packet) && id.ProtocolId == core.PROTOCOL_IBC && !ccForOrb(packet) ==> op == nil && err != nil && rootErr(err) == core.ErrNoOrbiterPacket
 //@   ensures[C01,C02,C11,C07,C03,C16,C18] err != nil && rootErr(err) == core.ErrNoOrbiterPacket ==> ccIsIBC(packet) && !ccForOrb(packet)
-//@   ensures[C01,C02,C11,C16] err == nil ==> ccIsIBC(packet) && ccForOrb(packet) && prefixof(denomPrefix(ccIBC(packet).sourcePort, ccIBC(packet).sourceChannel), ccData(packet).Denom) &&
+//@   ensures[C01,C02,C11,C16,C18] err == nil ==> ccIsIBC(packet) && ccForOrb(packet) && prefixof(denomPrefix(ccIBC(packet).sourcePort, ccIBC(packet).sourceChannel), ccData(packet).Denom) &&
 //@                  tracePath(ccDenom(packet)) == "" && okInt(ccData(packet).Amount) &&
 //@                  op.TransferAttributes.destinationCoin.Denom == ccDenom(packet) && val(op.TransferAttributes.destinationCoin.Amount) == parseInt(ccData(packet).Amount) &&
 //@                  op.TransferAttributes.sourceCoin == op.TransferAttributes.destinationCoin
@@ -158,6 +158,8 @@ package types
 //@ macro opDenom(op) = op.TransferAttributes.destinationCoin.Denom
 //@ func (self PayloadAdapter) BeforeTransferHook(ctx, packet) (err)
 //@   requires[base] packet != nil && packet.TransferAttributes != nil && taOK(packet.TransferAttributes) && packet.Payload != nil && payloadOK(packet.Payload)
+//   before any action has run the running coin is still the incoming coin (so "the transferred denomination" is unambiguous)
+//@   requires[C01,C02,C11,C18] packet.TransferAttributes.sourceCoin == packet.TransferAttributes.destinationCoin
 //@   modifies bank
 //@   counts hook_n
 //@   sets-post hook_failed = err != nil
@@ -191,7 +193,7 @@ package types
 //@   ensures[base] err == nil ==> fresh(result)
 //@   ensures[C07,C01,C02,C11,C03,C18] ccIsIBC(ccPacket) && !ccForOrb(ccPacket) ==> err != nil && rootErr(err) == core.ErrNoOrbiterPacket
 //@   ensures[C01,C02,C11,C07,C03,C16,C18] err != nil && rootErr(err) == core.ErrNoOrbiterPacket ==> ccIsIBC(ccPacket) && !ccForOrb(ccPacket)
-//@   ensures[C01,C02,C11,C16] err == nil ==> ccIsIBC(ccPacket) && ccForOrb(ccPacket) && prefixof(denomPrefix(ccIBC(ccPacket).sourcePort, ccIBC(ccPacket).sourceChannel), ccData(ccPacket).Denom) &&
+//@   ensures[C01,C02,C11,C16,C18] err == nil ==> ccIsIBC(ccPacket) && ccForOrb(ccPacket) && prefixof(denomPrefix(ccIBC(ccPacket).sourcePort, ccIBC(ccPacket).sourceChannel), ccData(ccPacket).Denom) &&
 //@                  tracePath(ccDenom(ccPacket)) == "" && okInt(ccData(ccPacket).Amount) && result.Coin.Denom == ccDenom(ccPacket) && val(result.Coin.Amount) == parseInt(ccData(ccPacket).Amount)
 
 // The dispatcher behind the adapter (implemented by the dispatcher component).
